@@ -37,6 +37,7 @@ int g_mix_n; _Bool g_mix_ret; int g_mix_postid; void *g_mix_self; int g_dd_n, g_
 VArg *g_fe_args; CLT *g_fe_list; int g_fe_n; _Bool g_fe_ret; int g_cb_n; VArg *g_cb_arg; _Bool g_cb_ret; Callback *g_cb_f;
 #endif
 #ifdef UNIT_CALLBACKLIST
+int g_cs_reads; Mutex *g_cs_mutex;
 int g_cbk_n; Callback *g_cbk_f; int g_cbk_arg; Node *g_cbk_h; int g_cci_n, g_cci_arg; _Bool g_cci_ret, g_vis_ret;
 #endif
 #ifdef UNIT_ANYDATA
